@@ -423,9 +423,9 @@ func init() {
 		Assumptions: []string{"fault model: process death (what was handed to the OS survives); loss of unsynced pages on power failure is outside the statement", "in-memory file system trusted as a model of the POSIX subset comet uses"},
 		Shards: func(tier string) []vShard {
 			var sh []vShard
-			maxR := 2
+			maxR := 3
 			if tier == "thorough" {
-				maxR = 3
+				maxR = 5
 			}
 			for _, tm := range []string{"vtm", "v"} {
 				for r := 0; r <= maxR; r++ {
